@@ -337,6 +337,12 @@ def change_step(ctx, record=("c05", "c06"), rounds=None):
             items.append(VM.mk_ma(q, o, z3.FreshConst(E_.U, "packed_rest")))
         return VEnum("Result", "Ok", [VSeq(items, "vec")])
     E.extra_intrinsics[r"(^|::)pack_nfts_for_change$"] = pack
+    def normalise(E_, c, args):
+        # dropping entries with quantity 0 is the identity in the pointwise abstraction (a quantity of 0 and an absent entry are the
+        # same point); what the helper does to concrete bundles is c03_e2_change_bundles_have_no_zero_or_empty_entries
+        E_.trace.append(("normalised", len([t for t in E_.trace if t[0] == "called" and t[1] == "pack"])))
+        return VM.deref(E_, args[0])
+    E.extra_intrinsics[r"(^|::)without_zero_assets$"] = normalise
     def shortage(E_, c, args):
         # over-approximated: ANY verdict (none / some shortage / failure) whatever the totals are — the balance may not depend on it
         v = E_.fresh("shortage_verdict")
@@ -382,6 +388,8 @@ def change_step(ctx, record=("c05", "c06"), rounds=None):
                      fallback_native="e2n_c06_change_fee_widths")
     ob4 = Obligation(ctx, "c07_e2_change_outputs_pass_admission", "as c05_e2_change_step_balances: every output the balancing step creates", ["TransactionBuilder::add_change_if_needed_with_optional_script_and_datum"],
                      fallback_native="e2n_c07_change_min_ada")
+    ob5 = Obligation(ctx, "c03_e2_change_is_packed_from_the_normalised_leftover", "as c05_e2_change_step_balances", ["TransactionBuilder::add_change_if_needed_with_optional_script_and_datum", "without_zero_assets"],
+                     fallback_native="e2n_c03_change_zero_quantities")
     seen, panics = {}, {}
     for o in E.explore("TransactionBuilder::add_change_if_needed_with_optional_script_and_datum", mk, max_paths=MAXP):
         if o.kind == "bound":
@@ -409,6 +417,13 @@ def change_step(ctx, record=("c05", "c06"), rounds=None):
             if ma_ is not None:
                 q_sum = q_sum + ma_[0]
         flag = VM.deref(E, o.value.fields[0])
+        # C03 (builder clause): asset change is only ever packed from a leftover that went through the zero-dropping normalisation
+        if any(t[0] == "called" and t[1] == "pack" for t in o.trace):
+            norm = [t for t in o.trace if t[0] == "normalised"]
+            if not norm or norm[0][1] != 0:
+                ob5.violation("Ok with asset change packed from a leftover that was not normalised first (entries with quantity 0 would be copied into the change outputs)")
+            else:
+                ob5.vc("asset change packed after normalisation", o.pc, z3.BoolVal(True))
         # C07: every output the step created went through add_output (the admission check: minimum ADA of the real output,
         # max_value_size), holds the assets it was admitted with, and its coin was only raised afterwards
         adm = {t[1]: t[2] for t in o.trace if t[0] == "admitted"}
@@ -463,6 +478,8 @@ def change_step(ctx, record=("c05", "c06"), rounds=None):
         ob3.finish(Engine(P))
     if "c07" in record:
         ob4.finish(E if "c05" not in record else Engine(P))
+    if "c03" in record:
+        ob5.finish(E if ("c05" not in record and "c07" not in record) else Engine(P))
 
 
 def fee_alignment_contracts(ctx):
